@@ -221,6 +221,7 @@ def gen_case(rng, *, n_ops, listeners=True, waits=True, attach=False, weird=Fals
     registered = []            # local ports of via-circuit connections whose stream has not shown up
     consumed = []              # local ports whose registration was used up by a stream (the port may be reused later)
     unanswered = []            # local ports of via-circuit connections whose SOCKS request is still unanswered
+    waiting = {}               # circuit object -> local ports of connections waiting for it to be BUILT
     if via:
         ops.append(['att', 0])
         attacher = 0
@@ -240,7 +241,15 @@ def gen_case(rng, *, n_ops, listeners=True, waits=True, attach=False, weird=Fals
             quit = [rng.randint(1, 4)]
         if via and rng.random() < 0.4:
             built_oids = [live_c[i] for i, c in w.circs.items() if c['status'] == 'BUILT' and i in live_c]
+            unbuilt_oids = [live_c[i] for i, c in w.circs.items() if c['status'] in ('LAUNCHED', 'EXTENDED') and i in live_c]
             k = rng.random()
+            if unbuilt_oids and rng.random() < 0.3:
+                # a connection through a circuit Tor is still building: it waits for BUILT (and fails if the circuit does)
+                w.port += 1
+                o = rng.choice(unbuilt_oids)
+                waiting.setdefault(o, []).append(w.port)
+                ops.append(['via', o, '127.0.0.1', w.port])
+                continue
             if built_oids and k < 0.5:
                 w.port += 1
                 if rng.random() < 0.3:
@@ -286,6 +295,10 @@ def gen_case(rng, *, n_ops, listeners=True, waits=True, attach=False, weird=Fals
                 oid = see_circ(l)
                 listening_c[oid] -= set(quit) if l else set()
                 ops.append(['circ', l, quit])
+                if l.split()[1] == 'BUILT':
+                    registered.extend(waiting.pop(oid, []))
+                elif l.split()[1] in ('CLOSED', 'FAILED'):
+                    waiting.pop(oid, None)
         elif r < 0.62:
             if weird and rng.random() < 0.15:
                 sid = rng.choice(S_IDS)
@@ -449,7 +462,7 @@ class Spec:
                 if l not in ls:
                     ls.append(l)
             c = {'id': cid, 'status': None, 'path': [], 'purpose': None, 'bflags': [], 'flags': [], 'listeners': ls, 'streams': [],
-                 'built': None, 'wb': [], 'wc': [], 'closing': None, 'gone': False}
+                 'built': None, 'wb': [], 'vw': [], 'wc': [], 'closing': None, 'gone': False}
             self.cobj.append(c)
             self.live_c[cid] = len(self.cobj) - 1
             self.notify(c, quit, 'new')
@@ -481,6 +494,10 @@ class Spec:
                 c['built'] = True
                 self.fire(c['wb'], True)
                 c['wb'] = []
+                # the connections that waited for this circuit go ahead: each is recognised by its local address from now on
+                for d, addr, port in c['vw']:
+                    self.targets[(addr, port)] = (self.live_c[cid], d)
+                c['vw'] = []
         elif st in ('CLOSED', 'FAILED'):
             if st == 'FAILED' and c['streams']:
                 self.outs.append(['e', 'failed-with-streams'])
@@ -492,8 +509,14 @@ class Spec:
             c['gone'] = True
             if c['built'] is None:
                 c['built'] = False
-                self.fire(c['wb'], False)
+                # everyone waiting for BUILT fails, in the order they began to wait — the connections made through it among them
+                order = list(c['wb'])
+                for d, _, _ in reversed(c['vw']):
+                    at = next((i for i, x in enumerate(order) if d <= x), len(order))
+                    order.insert(at, d)
+                self.fire(order, False)
                 c['wb'] = []
+                c['vw'] = []
             del self.live_c[cid]
             self.notify(c, quit, 'closed' if st == 'CLOSED' else 'failed', '', both_cases(kw))
 
@@ -686,6 +709,8 @@ class Spec:
                 self.ghosts.add(d)
             if c['built'] is True:
                 self.targets[(op[2], op[3])] = (op[1], d)
+            elif c['built'] is None:
+                c['vw'].append((d, op[2], op[3]))
             else:
                 self.fire([d], False)
         elif k == 'vialost':
